@@ -2,7 +2,7 @@
    Only statements, [exact]s and Print Assumptions live here.  [sha] (SHA-256) and [sign] (what the signer
    writes for the bytes it is given) are arbitrary functions: the theorems hold for every signer. *)
 From NDN Require Import Base.Prelude Model.TlvVar Model.Name Model.Tlv Model.Packet Model.PacketEnc Spec.TlvWf.
-From NDN Require Import Proofs.TlvVarProofs Proofs.TlvSplit Proofs.TlvRoundtrip2 Proofs.PacketRoundtrip Proofs.ShrinkProofs.
+From NDN Require Import Proofs.TlvVarProofs Proofs.TlvSplit Proofs.TlvRoundtrip2 Proofs.PacketRoundtrip Proofs.ShrinkProofs Proofs.ShrinkBridge.
 From NDN Require Generated.Schemas.
 Local Open Scope N_scope.
 
@@ -71,3 +71,10 @@ Example C01_example :
   exists m, make_interest (fun _ => repeat 1 32) (fun _ => repeat 2 32) i = Ok m /\
             length (m_final_name m) = 2%nat /\ is_ok (dec_interest (m_wire m)) = true.
 Proof. eexists. vm_compute. repeat split; reflexivity. Qed.
+
+(* T2 tie: the shrink_length translated from the source on this run yields the canonical shorter element *)
+Theorem C01_tie_shrink t p pad :
+  t < two64 -> N.of_nat (length (p ++ pad)) < two64 -> (0 < length pad)%nat -> wf_bytes (p ++ pad) ->
+  Generated.TlvVarGen.shrink_length (tlv t (p ++ pad)) (Z.of_nat (length pad)) = Ok (tlv t p).
+Proof. exact (Proofs.ShrinkBridge.gen_shrink_eq t p pad). Qed.
+Print Assumptions C01_tie_shrink.
